@@ -115,6 +115,13 @@ impl Arena {
     }
 }
 
+/// Verification hook (read-only; compiled only with `--cfg leptos_verif`):
+/// the number of live entries in the current arena.
+#[cfg(leptos_verif)]
+pub fn verif_len() -> usize {
+    Arena::try_with(|arena| arena.len()).unwrap_or(0)
+}
+
 #[cfg(feature = "sandboxed-arenas")]
 pub mod sandboxed {
     use super::{Arena, ArenaMap, MAP};
